@@ -13,10 +13,16 @@ CLAUSES = {
     "C14.variance": 100, "C14.constancy": 4000, "C14.independence": 4000,
 }
 HOOKS_REQUIRED = ["G_E_Phenotyping.phenotype calls", "TruePhenotyping.phenotype calls",
-                  "MeanPhenotypicBreedingValue.estimate calls", "TrueBreedingValue.estimate calls", "set_h2/set_H2 calls"]
-RULE = ("flow cases: population (1-30 taxa, 1-24 markers, ploidy 1/2/4, taxon names deliberately unsorted: mixed-case strings, "
+                  "MeanPhenotypicBreedingValue.estimate calls", "TrueBreedingValue.estimate calls", "set_h2/set_H2 calls",
+                  "truth judged on a structured effect architecture", "truth judged on sparse effects cancelling across traits",
+                  "truth judged on > 127 markers"]
+RULE = ("flow cases: population (1-30 taxa, 1-24 markers or - a quarter of the cases - 25-300 markers incl. 127/128/129/256, ploidy 1/2/4, taxon names deliberately unsorted: mixed-case strings, "
         "numeric strings, integer objects, or absent; groups present/absent/taxa-grouped) x genomic model (additive q=1, additive q>1, "
-        "additive+dominance, rrBLUPModel0; 1-3 traits, labels present/absent, exact-zero effects, large intercept) x trial "
+        "additive+dominance, rrBLUPModel0; 1-3 traits, labels present/absent, large intercept or intercept exactly 0 on some traits; additive and dominance effects each "
+        "drawn as an architecture: markers carrying an effect (all / cells zeroed at random / half / sparse QTL among many markers / single QTL / none) x relation "
+        "across traits (independent / summing to exactly 0 over the traits on some or on every marker - trade-off loci - / identical / one trait without effects / "
+        "one trait per marker) x magnitudes (normal, dyadic, equal, small integers, one sign, 1e-9..1e3 side by side) x every trait's effects summing to exactly 0 over "
+        "the markers or not x memory layout C / Fortran / strided view; the oracle works on independent copies of the parameters) x trial "
         "(1-6 environments, scalar or per-environment replicate counts, variances all-zero / None / scalar / per-trait float64, float32 or integer "
         "vectors with exact zeros on some traits only, per-trait heritability targets with exactly 1.0 on some traits only, "
         "optional session of 1-4 set_h2/set_H2 calls on the one live protocol object (h in (0,1] incl. 1 and 1e-6; the population itself, a "
@@ -74,7 +80,7 @@ def gen_names(g, n):
 def gen_population(g):
     from pybrops.popgen.gmat.DensePhasedGenotypeMatrix import DensePhasedGenotypeMatrix
     n = int(g.choice([1, 2, 3, 5, 8, 13, 30])) if g.random() < 0.4 else int(g.integers(1, 31))
-    p = int(g.integers(1, 25))
+    p = int(g.integers(1, 25)) if g.random() < 0.75 else int(g.choice([32, 60, 127, 128, 129, 200, 256, 300, int(g.integers(25, 301))]))
     ploidy = int(g.choice([2, 2, 2, 2, 1, 4]))
     raw = g.integers(0, 2, (ploidy, n, p)).astype("int8")
     if g.random() < 0.3:
@@ -93,6 +99,85 @@ def gen_population(g):
     return pg, dict(names=nkind, groups=gkind + ("/taxa-grouped" if grouped else ""), ploidy=ploidy, mono=mono)
 
 
+def dyadic(g, shape, sd):
+    """Non-zero effects that are multiples of 1/8: sums and differences of a few of them are exact in floating point."""
+    v = numpy.rint(g.normal(0, 8 * sd, shape))
+    v[v == 0] = 3.0
+    return v / 8.0
+
+
+def gen_effects(g, p, nt, sd, stat=False):
+    """(p, nt) marker effects with an explicit architecture: which markers carry an effect at all x how the effects of one marker
+    relate across traits x their magnitudes x memory layout.  Returns (array handed to the model, independent copy, class dict)."""
+    spars = ["dense", "dense", "cells zeroed at random", "cells zeroed at random", "half of the markers", "sparse QTL", "sparse QTL",
+             "sparse QTL", "single QTL", "no effects"][int(g.integers(10))]
+    if stat and spars == "no effects":
+        spars = "sparse QTL"
+    if spars in ("dense", "cells zeroed at random"):
+        rows = numpy.arange(p)
+    elif spars == "half of the markers":
+        rows = numpy.flatnonzero(g.random(p) < 0.5)
+    elif spars == "sparse QTL":      # few QTL among many markers
+        rows = numpy.sort(g.permutation(p)[: int(g.integers(1, max(2, p // 4 + 1)))])
+    elif spars == "single QTL":
+        rows = g.permutation(p)[:1]
+    else:
+        rows = numpy.arange(0)
+    k = len(rows)
+    mag = ["normal", "normal", "normal", "dyadic", "equal magnitudes", "small integers", "one sign", "tiny beside large"][int(g.integers(6 if stat else 8))]
+    if mag == "normal":
+        e = g.normal(0, sd, (k, nt))
+    elif mag == "dyadic":
+        e = dyadic(g, (k, nt), sd)
+    elif mag == "equal magnitudes":
+        e = float(g.choice([0.5, 1.0, 2.0])) * g.choice([-1.0, 1.0], (k, nt))
+    elif mag == "small integers":      # includes exact zeros
+        e = g.integers(-3, 4, (k, nt)).astype(float)
+    elif mag == "one sign":
+        e = numpy.abs(g.normal(0, sd, (k, nt))) * float(g.choice([-1.0, 1.0]))
+    else:
+        e = g.normal(0, sd, (k, nt)) * 10.0 ** g.choice([-9.0, -6.0, -3.0, 0.0, 0.0, 3.0], (k, 1))
+    if spars == "cells zeroed at random":
+        e = e * (g.random((k, nt)) < 0.75)
+    plei = "independent"
+    if k and nt > 1:
+        plei = ["independent", "independent", "cancelling across traits on some markers", "cancelling across traits on some markers",
+                "cancelling across traits on every marker", "identical across traits", "one trait without effects",
+                "one trait only per marker"][int(g.integers(8))]
+        if plei.startswith("cancelling"):      # trade-off loci: the effects of one marker sum to exactly 0 over the traits
+            sel = numpy.arange(k) if plei.endswith("every marker") else g.permutation(k)[: int(g.integers(1, k + 1))]
+            for i in sel:
+                a = dyadic(g, nt, sd)
+                if nt == 2 or g.random() < 0.5:      # +a on one trait, -a on another
+                    j0, j1 = g.permutation(nt)[:2]
+                    v = numpy.zeros(nt); v[j0], v[j1] = a[0], -a[0]
+                else:                                  # a, b, -(a + b)
+                    v = a.copy(); v[-1] = -v[:-1].sum(); v = v[g.permutation(nt)]
+                e[i] = v
+        elif plei == "identical across traits":
+            e[:] = e[:, :1]
+        elif plei == "one trait without effects":
+            e[:, int(g.integers(nt))] = 0.0
+        else:
+            keep = g.integers(0, nt, k)
+            e = e * (numpy.arange(nt)[None, :] == keep[:, None])
+    bal = bool(k >= 2 and g.random() < 0.12)
+    if bal:      # effects balanced over the markers: every trait's effects sum to exactly 0
+        e = numpy.rint(e * 8.0) / 8.0
+        e[-1] = -e[:-1].sum(0)
+    u = numpy.zeros((p, nt))
+    u[rows] = e
+    lay = ["C", "C", "C", "C", "Fortran", "strided view"][int(g.integers(6))]
+    if lay == "Fortran":
+        arg = numpy.asfortranarray(u)
+    elif lay == "strided view":
+        big = numpy.full((2 * p, nt + 1), 77.0); big[::2, :nt] = u
+        arg = big[::2, :nt]
+    else:
+        arg = u.copy()
+    return arg, u, dict(markers=spars, traits=plei, magnitude=mag, balanced=bal, layout=lay)
+
+
 def gen_model(g, p, stat=False, nt=None):
     from pybrops.model.gmod.DenseAdditiveLinearGenomicModel import DenseAdditiveLinearGenomicModel
     from pybrops.model.gmod.DenseAdditiveDominanceLinearGenomicModel import DenseAdditiveDominanceLinearGenomicModel
@@ -104,16 +189,20 @@ def gen_model(g, p, stat=False, nt=None):
     big = (not stat) and g.random() < 0.15
     if big:
         beta[0] += 1e4 * g.choice([-1.0, 1.0], nt)
-    u_a = g.normal(0, 1, (p, nt)) * (g.random((p, nt)) < 0.75)
-    u_d = g.normal(0, 0.7, (p, nt)) * (g.random((p, nt)) < 0.6) if kind == "additive+dominance" else None
+    elif g.random() < 0.1:
+        beta[:, g.random(nt) < 0.6] = 0.0                      # intercept exactly zero on some traits
+    ua_arg, u_a, arch = gen_effects(g, p, nt, 1.0, stat)
+    ud_arg, u_d, arch_d = gen_effects(g, p, nt, 0.7, stat) if kind == "additive+dominance" else (None, None, None)
     trait = None if g.random() < 0.15 else numpy.array([TRAIT_POOL[i] for i in g.permutation(len(TRAIT_POOL))[:nt]], dtype=object)
+    beta_arg = beta.copy()
     if kind == "additive+dominance":
-        mod = DenseAdditiveDominanceLinearGenomicModel(beta=beta, u_misc=None, u_a=u_a, u_d=u_d, trait=trait)
+        mod = DenseAdditiveDominanceLinearGenomicModel(beta=beta_arg, u_misc=None, u_a=ua_arg, u_d=ud_arg, trait=trait)
     elif kind == "rrBLUPModel0":
-        mod = rrBLUPModel0(beta=beta, u_misc=None, u_a=u_a, trait=trait)
+        mod = rrBLUPModel0(beta=beta_arg, u_misc=None, u_a=ua_arg, trait=trait)
     else:
-        mod = DenseAdditiveLinearGenomicModel(beta=beta, u_misc=None, u_a=u_a, trait=trait)
-    return mod, dict(kind=kind, nt=nt, beta=beta, u_a=u_a, u_d=u_d, trait=trait, big=big)
+        mod = DenseAdditiveLinearGenomicModel(beta=beta_arg, u_misc=None, u_a=ua_arg, trait=trait)
+    # the oracle works on independent copies of the parameters (beta, u_a, u_d), never on the arrays the model holds
+    return mod, dict(kind=kind, nt=nt, beta=beta, u_a=u_a, u_d=u_d, trait=trait, big=big, arch=arch, arch_d=arch_d)
 
 
 def gen_rng(g):
@@ -226,10 +315,16 @@ def judge_frame(ctx, df, pg, M, truth, scale, nenv, nrep, site, icls, coords, ze
                     err[rows, j] = numpy.abs(numpy.sort(vals[rows, j]) - numpy.sort(truth[:, j]))
         bad = (err > tl[None, :]) | ~numpy.isfinite(vals)
         bad = bad[:, zero]
+        A = M.get("arch")
+        if A is not None:
+            ctx.hook("truth judged on a structured effect architecture", int(A["markers"] not in ("dense", "cells zeroed at random") or A["traits"] != "independent"))
+            ctx.hook("truth judged on sparse effects cancelling across traits", int(A["markers"] in ("sparse QTL", "single QTL") and A["traits"].startswith("cancelling")))
+            ctx.hook("truth judged on > 127 markers", int(numpy.shape(M["u_a"])[0] > 127))
         ctx.maxnote("truth: worst |record - true value| / tolerance", float((err / tl[None, :])[:, zero].max()) if err.size else 0.0)
         ctx.check("C14.truth", not bad.any(), site, "record == taxon's true genotypic value when the trait's variances are zero", icls,
-                  what="%s: %d of %d zero-noise records differ from the true genotypic value (max err %.3g)" % (site, int(bad.any(1).sum()), len(vals), float(err[:, zero].max())),
-                  witness={"model": M["kind"], "beta": M["beta"], "u_a": M["u_a"], "u_d": M["u_d"], "raw": pg.mat, "taxa": pg.taxa,
+                  what="%s: %d of %d zero-noise records differ from the true genotypic value (max err %.3g; %s model, %d markers, additive effects: %s)"
+                  % (site, int(bad.any(1).sum()), len(vals), float(err[:, zero].max()), M["kind"], numpy.shape(M["u_a"])[0], M.get("arch")),
+                  witness={"model": M["kind"], "effect architecture": M.get("arch"), "dominance architecture": M.get("arch_d"), "beta": M["beta"], "u_a": M["u_a"], "u_d": M["u_d"], "raw": pg.mat, "taxa": pg.taxa,
                            "records": df.head(12).to_dict("list"), "truth": truth}, coords=coords)
     return ix
 
@@ -589,6 +684,10 @@ def case_flow(ctx, c):
     for k_, v_ in (("taxon names", P["names"]), ("groups", P["groups"]), ("ploidy", P["ploidy"]), ("rng", rname),
                    ("trait labels", "present" if M["trait"] is not None else "absent"), ("nrep", "scalar" if numpy.ndim(nrep_arg) == 0 else "per-environment")):
         ctx.sumnote("flow cases with %s: %s" % (k_, v_))
+    for k_ in ("markers", "traits", "magnitude", "layout"):
+        ctx.sumnote("flow cases with additive effects / %s: %s" % (k_, M["arch"][k_]))
+    ctx.sumnote("flow cases with every trait's effects summing to exactly 0 over the markers", int(M["arch"]["balanced"]))
+    ctx.sumnote("flow cases with markers: %s" % ("1-24" if p < 25 else ("25-127" if p <= 127 else "128-300")))
     try:
         pt = G_E_Phenotyping(mod, nenv=nenv, nrep=nrep_arg, var_env=venv, var_rep=vrep, var_err=verr, rng=rng)
     except Exception as e:
@@ -897,12 +996,12 @@ def run_trial(D, seed, mult, rkind):
     names = numpy.array([NAME_POOL[i] for i in g.permutation(len(NAME_POOL))[:n]], dtype=object)
     pg = DensePhasedGenotypeMatrix(raw, taxa=names, taxa_grp=g.integers(0, 3, n).astype("int64"),
                                    vrnt_chrgrp=numpy.ones(p, dtype="int64"), vrnt_phypos=numpy.arange(1, p + 1, dtype="int64"))
-    beta = g.normal(0, 5, (1, nt)); u_a = g.normal(0, 1, (p, nt)); u_a[0] = numpy.abs(u_a[0]) + 0.5
+    beta = g.normal(0, 5, (1, nt)); u_a = gen_effects(g, p, nt, 1.0, stat=True)[1]; u_a[0] = numpy.abs(g.normal(0, 1, nt)) + 0.5
     dom = D["hfun"] == "set_H2" or g.random() < 0.3
-    u_d = g.normal(0, 0.7, (p, nt)) if dom else None
+    u_d = gen_effects(g, p, nt, 0.7, stat=True)[1] if dom else None
     trait = numpy.array(TRAIT_POOL[:nt], dtype=object)
-    mod = (DenseAdditiveDominanceLinearGenomicModel(beta=beta, u_misc=None, u_a=u_a, u_d=u_d, trait=trait) if dom
-           else DenseAdditiveLinearGenomicModel(beta=beta, u_misc=None, u_a=u_a, trait=trait))
+    mod = (DenseAdditiveDominanceLinearGenomicModel(beta=beta.copy(), u_misc=None, u_a=u_a.copy(), u_d=u_d.copy(), trait=trait) if dom
+           else DenseAdditiveLinearGenomicModel(beta=beta.copy(), u_misc=None, u_a=u_a.copy(), trait=trait))
     s = int(g.integers(0, 2 ** 31))
     if rkind == "Generator":
         rng = numpy.random.Generator(numpy.random.PCG64(s))
